@@ -382,6 +382,10 @@ func (h *H) Go(f func()) {
 		defer h.wg.Done()
 		f()
 	}()
+	// the engine's default policy runs a new thread until it blocks, ends or is preempted at a
+	// recorded boundary before the spawner continues: give the goroutine that head start, so that
+	// harnesses whose observations depend on the schedule replay the recorded one
+	time.Sleep(time.Duration(slowFactor()) * 40 * time.Millisecond)
 }
 
 func (h *H) Wait() bool {
